@@ -49,12 +49,18 @@ def strategy_(g):
                     operand = [rnd.randint(-3, 3) for _ in range(R.PDIM[k])]
                     if k == "se2":
                         operand.append(rnd.randint(-7, 7))
-                    else:
+                    xdt = rnd.choice(["int64", "int32", "int16", "int8"])
+                    if k == "se3":
                         rot = [0, 0, 0]
-                        if rnd.random() < 0.5:
+                        r_ = rnd.random()
+                        if r_ < 0.4:
                             rot[rnd.randrange(3)] = rnd.choice([1, -1])
+                        elif r_ < 0.7:
+                            # a rotation part far longer than 1 (the update applies no rotation then), large for the dtype
+                            big = {"int8": [12, -100, 127], "int16": [200, -181, 32767], "int32": [50000, -65536], "int64": [2**32, -(2**33)]}[xdt]
+                            rot[rnd.randrange(3)] = rnd.choice(big)
                         operand += rot
-                    prog.append({"op": op, "x": operand, "rep": rep, "xdtype": rnd.choice(["int64", "int32", "int16"])})
+                    prog.append({"op": op, "x": operand, "rep": rep, "xdtype": xdt})
                     continue
             else:
                 operand = g.pose(k, s=1.0, big_angle=True)["v"]
